@@ -396,8 +396,13 @@ func (g *generator) walkList(schema *schemaparser.Schema) (ast.Type, error) {
 	case schema.Items2020 != nil:
 		itemsDef, err = g.walkDefinition(schema.Items2020)
 	default:
-		// TODO: schema.Items might not be a schema?
-		itemsDef, err = g.walkDefinition(schema.Items.(*schemaparser.Schema))
+		itemsSchema, isSchema := schema.Items.(*schemaparser.Schema)
+		if !isSchema {
+			// `items: [schema, schema]`: a tuple
+			return ast.Type{}, fmt.Errorf("tuples (items as a list of schemas) are not supported")
+		}
+
+		itemsDef, err = g.walkDefinition(itemsSchema)
 	}
 
 	// items contains an empty schema: `{}`
